@@ -9,7 +9,7 @@ manifest = json.load(open(os.path.join(V, "MANIFEST.json")))
 claimed = [c["property_id"] for c in manifest["checks"]]
 args = [a for a in sys.argv[1:] if not a.startswith("--")]
 allp = "--all-props" in sys.argv
-seeds = sorted(os.listdir(os.path.join(V, "seeded")))
+seeds = sorted(d for d in os.listdir(os.path.join(V, "seeded")) if os.path.isdir(os.path.join(V, "seeded", d)))
 if args:
     seeds = [s for s in seeds if s in args or s[:3] in args]
 
